@@ -346,6 +346,15 @@ func (ctrler *RigoApp) deliverTxSync(req abcitypes.RequestDeliverTx) abcitypes.R
 		xerr = xerrors.ErrDeliverTx.Wrap(xerr)
 		ctrler.logger.Error("deliverTxSync", "error", xerr)
 
+		// NewTrxContext returns no context when the tx can not be decoded
+		// or its sender has no account.
+		if txctx == nil {
+			return abcitypes.ResponseDeliverTx{
+				Code: xerr.Code(),
+				Log:  xerr.Error(),
+			}
+		}
+
 		if txctx.Tx != nil {
 			// add event
 			txctx.Events = append(txctx.Events, abcitypes.Event{
